@@ -127,6 +127,12 @@ pub fn family(name: &str) -> Family {
             binary: vec!["then", "or", "sepB", "foldl", "foldr", "sepexact", "enumsep", "sepcount", "seprun"],
             alphabet: vec!["a", "b", ","],
         },
+        "spn" | "spng" => Family {
+            leaves: vec![j("a"), jj("a", "b"), json!(["any"]), json!(["empty"]), j("b")],
+            unary: if name == "spn" { vec!["tospan", "toslice", "mw", "ornot", "rewind", "rep0", "validateF", "trymapF"] } else { vec!["tospan", "mw", "ornot", "rewind", "rep0", "validateF", "trymapF"] },
+            binary: vec!["then", "or", "foldlw", "foldrw", "then"],
+            alphabet: if name == "spn" { vec!["a", "b", "E"] } else { vec!["a", "b"] },
+        },
         "rcv" => Family {
             leaves: vec![j("a"), j("b"), jj("a", "b"), json!(["any"])],
             unary: vec!["ornot", "rep0", "rep12", "validate", "recover", "recover", "map"],
@@ -191,6 +197,7 @@ pub fn gen(r: &mut Rng, f: &Family, budget: usize) -> J {
             "filter" => json!(["filter", gen(r, f, budget - 1), "nfa"]),
             "trymap" => json!(["trymap", gen(r, f, budget - 1), "nfa"]),
             "trymapT" => json!(["trymap", gen(r, f, budget - 1), "T"]),
+            "trymapF" => json!(["trymap", gen(r, f, budget - 1), "F"]),
             "trymapw" => json!(["trymapw", gen(r, f, budget - 1), "nfa"]),
             "validate" => json!(["validate", gen(r, f, budget - 1), (1 + r.below(3)).to_string(), "nfa"]),
             "validateF" => json!(["validate", gen(r, f, budget - 1), (1 + r.below(3)).to_string(), "F"]),
@@ -252,6 +259,8 @@ pub fn gen(r: &mut Rng, f: &Family, budget: usize) -> J {
             "delim" => json!(["delim", gen(r, f, left), gen(r, f, right.min(2)), gen(r, f, 2)]),
             "foldl" => json!(["foldl", gen(r, f, left), ["rep", non_empty(r, f, right), b.0, b.1], "g"]),
             "foldr" => json!(["foldr", ["rep", non_empty(r, f, left), b.0, b.1], gen(r, f, right), "g"]),
+            "foldlw" => json!(["foldlw", gen(r, f, left), ["rep", non_empty(r, f, right), b.0, b.1], "g"]),
+            "foldrw" => json!(["foldrw", ["rep", non_empty(r, f, left), b.0, b.1], gen(r, f, right), "g"]),
             "sepc" => json!(["collect", ["sep", non_empty(r, f, left), gen(r, f, right), 0, -1, lead, trail], "vec"]),
             "sepB" => json!(["collect", ["sep", non_empty(r, f, left), gen(r, f, right), b.0, b.1, lead, trail], "vec"]),
             "sepcount" => json!(["collect", ["sep", non_empty(r, f, left), gen(r, f, right), b.0, b.1, lead, trail], "count"]),
